@@ -112,8 +112,17 @@ def one_definition(ctx, facts, cfg):
             if v[0] == 'call' and str(v[1]).endswith('::is_ok') and v[2] and v[2][0][0] == 'call':
                 inner = v[2][0]
                 g = facts.fns.get(inner[1]) if isinstance(inner[1], str) else None
-                if g is not None and (g.output or '').startswith('std::result::Result<bool, Error>') and \
-                        tuple(inner[2]) == (('local', 'original_count'), ('local', 'recovery_count')):
+                is_dec = g is not None and (g.output or '').startswith('std::result::Result<bool, Error>')
+                if g is not None and not is_dec:
+                    # a transparent wrapper of the decision (fails exactly when the decision fails, on its own parameters in order)
+                    S_ = summ.summaries(facts)
+                    fs_ = S_.fail_sources(S_.identity_key(g))
+                    pn_ = tuple(('param', n) for n in g.param_names())
+                    if len(fs_) == 1:
+                        lf = list(fs_)[0]
+                        d_ = facts.fns.get(lf[1]) if lf[0] == 'pred' else None
+                        is_dec = d_ is not None and (d_.output or '').startswith('std::result::Result<bool, Error>') and tuple(lf[2]) == pn_
+                if is_dec and tuple(inner[2]) == (('local', 'original_count'), ('local', 'recovery_count')):
                     okd = True
         if okd:
             ctx.ok(R, 'DefaultRate::supports=decision.is_ok()@%s' % cfg, None)
